@@ -308,3 +308,7 @@ v("c07-given-weights-threshold-too-small", {"C07"}, ("flowpaths/kleastabserrors.
 v("benign-given-weights-threshold-restyled", B, ("flowpaths/kleastabserrors.py", "[weight if weight > 1e-9 else 0 for weight in self.solution_weights_superset]", "[0 if w <= 1e-9 else w for w in self.solution_weights_superset]", 1))
 v("c15-mfdc-multiplicity-guard-dropped", {"C15"}, ("flowpaths/minflowdecompcycles.py", "        if self.w_max < 1:\n            return None\n", "", 1))
 v("c02-readers-fraction-of-longdouble", {"C02"}, ("flowpaths/utils/safetyflowdecomp.py", "Fraction(*value.as_integer_ratio()) if hasattr(value, \"as_integer_ratio\") else Fraction(value)", "Fraction(value)", 2))
+v("c15-trivial-removal-too-wide", {"C15"}, ("flowpaths/mingenset.py", "                if val == total or val == 0:", "                if val >= total or val == 0:", 1))
+v("benign-trivial-removal-restyled", B, ("flowpaths/mingenset.py", "                if val == total or val == 0:", "                if val in (0, total):", 1))
+v("benign-given-weights-threshold-named", B, ("flowpaths/kleastabserrors.py", "            self.solution_weights_superset = [weight if weight > 1e-9 else 0 for weight in self.solution_weights_superset]", "            smallest_coefficient = 1e-9\n            self.solution_weights_superset = [weight if weight > smallest_coefficient else 0 for weight in self.solution_weights_superset]", 1))
+v("c08-given-weights-pruned-above-max-flow", {"C08"}, ("flowpaths/kminpatherror.py", "            self.solution_weights_superset = [weight if weight > 1e-9 else 0 for weight in self.solution_weights_superset]", "            self.solution_weights_superset = [weight if 1e-9 < weight <= self.k * 1000 else 0 for weight in self.solution_weights_superset]", 1))
